@@ -147,7 +147,11 @@ func (s *AState) counts() (pend, queued, nlQueued int) {
 	return
 }
 
-type clauseFail struct{ clause, detail string }
+type clauseFail struct {
+	clause, detail string
+	acct           int // run clause: the account and the first missing nonce
+	missing        uint64
+}
 
 // CheckInv evaluates the state clauses of C15 on an observed state:
 //
@@ -162,27 +166,27 @@ func (s *AState) CheckInv(cfg ACfg, withLimits bool) []clauseFail {
 	for i := 0; i < nAccounts; i++ {
 		for k, t := range s.Pend[i].Txs {
 			if t.S != i {
-				out = append(out, clauseFail{"unique", fmt.Sprintf("pending list of %d holds %v", i, t)})
+				out = append(out, clauseFail{clause: "unique", detail: fmt.Sprintf("pending list of %d holds %v", i, t)})
 			}
 			if uint64(t.N) != s.CNonce[i]+uint64(k) {
-				out = append(out, clauseFail{"run", fmt.Sprintf("account %d chain nonce %d pending nonces %v", i, s.CNonce[i], nonces(s.Pend[i].Txs))})
+				out = append(out, clauseFail{clause: "run", detail: fmt.Sprintf("account %d chain nonce %d pending nonces %v", i, s.CNonce[i], nonces(s.Pend[i].Txs)), acct: i, missing: s.CNonce[i] + uint64(k)})
 				break
 			}
 		}
 		for _, t := range s.Pend[i].Txs {
 			if t.Cost() > s.Balance[i] || t.G > s.MaxGas {
-				out = append(out, clauseFail{"afford", fmt.Sprintf("pending %v cost %d balance %d gaslimit %d", t, t.Cost(), s.Balance[i], s.MaxGas)})
+				out = append(out, clauseFail{clause: "afford", detail: fmt.Sprintf("pending %v cost %d balance %d gaslimit %d", t, t.Cost(), s.Balance[i], s.MaxGas)})
 			}
 		}
 		for _, t := range s.Queue[i].Txs {
 			if t.S != i {
-				out = append(out, clauseFail{"unique", fmt.Sprintf("queue list of %d holds %v", i, t)})
+				out = append(out, clauseFail{clause: "unique", detail: fmt.Sprintf("queue list of %d holds %v", i, t)})
 			}
 		}
 	}
 	for k, ts := range s.occupants() {
 		if len(ts) > 1 {
-			out = append(out, clauseFail{"unique", fmt.Sprintf("slot %v held by %v", k, ts)})
+			out = append(out, clauseFail{clause: "unique", detail: fmt.Sprintf("slot %v held by %v", k, ts)})
 		}
 	}
 	if withLimits {
@@ -196,16 +200,16 @@ func (s *AState) checkLimits(cfg ACfg) []clauseFail {
 	pend, _, nlq := s.counts()
 	for i := 0; i < nAccounts; i++ {
 		if !s.Local[i] && uint64(len(s.Queue[i].Txs)) > cfg.AccountQueue {
-			out = append(out, clauseFail{"limit-account-queue", fmt.Sprintf("account %d queued %d > %d", i, len(s.Queue[i].Txs), cfg.AccountQueue)})
+			out = append(out, clauseFail{clause: "limit-account-queue", detail: fmt.Sprintf("account %d queued %d > %d", i, len(s.Queue[i].Txs), cfg.AccountQueue)})
 		}
 	}
 	if uint64(nlq) > cfg.GlobalQueue {
-		out = append(out, clauseFail{"limit-global-queue", fmt.Sprintf("non-local queued %d > %d", nlq, cfg.GlobalQueue)})
+		out = append(out, clauseFail{clause: "limit-global-queue", detail: fmt.Sprintf("non-local queued %d > %d", nlq, cfg.GlobalQueue)})
 	}
 	if uint64(pend) > cfg.GlobalSlots {
 		for i := 0; i < nAccounts; i++ {
 			if !s.Local[i] && uint64(len(s.Pend[i].Txs)) > cfg.AccountSlots {
-				out = append(out, clauseFail{"limit-global-slots", fmt.Sprintf("pending %d > %d while non-local account %d holds %d > %d", pend, cfg.GlobalSlots, i, len(s.Pend[i].Txs), cfg.AccountSlots)})
+				out = append(out, clauseFail{clause: "limit-global-slots", detail: fmt.Sprintf("pending %d > %d while non-local account %d holds %d > %d", pend, cfg.GlobalSlots, i, len(s.Pend[i].Txs), cfg.AccountSlots)})
 				break
 			}
 		}
@@ -240,7 +244,7 @@ func CheckReplacement(pre, post *AState, cfg ACfg, adds int) []clauseFail {
 			continue
 		}
 		if o, n := ts[0], po[k][0]; o != n && !bumpOK(o, n, cfg.PriceBump) {
-			out = append(out, clauseFail{"bump", fmt.Sprintf("slot %v: %v replaced by %v with bump %d%%", k, o, n, cfg.PriceBump)})
+			out = append(out, clauseFail{clause: "bump", detail: fmt.Sprintf("slot %v: %v replaced by %v with bump %d%%", k, o, n, cfg.PriceBump)})
 		}
 	}
 	return out
@@ -286,7 +290,7 @@ func CheckReorg(pre, post *AState, cfg ACfg, disc, inc []ATx, oldNum, newNum uin
 		if len(occ[key{t.S, t.N}]) > 0 {
 			continue // slot taken by a competitor
 		}
-		out = append(out, clauseFail{"reorg-reinject", fmt.Sprintf("%v dropped out of the chain, is still valid (nonce %d balance %d gasprice %d) but is in neither pending nor queue", t, post.CNonce[t.S], post.Balance[t.S], post.GasPrice)})
+		out = append(out, clauseFail{clause: "reorg-reinject", detail: fmt.Sprintf("%v dropped out of the chain, is still valid (nonce %d balance %d gasprice %d) but is in neither pending nor queue", t, post.CNonce[t.S], post.Balance[t.S], post.GasPrice)})
 	}
 	return out
 }
